@@ -135,7 +135,7 @@ PROPS_EXTRA = {
     'C11': ['Props.GenFetcher'],
     'C12': ['Props.CodecFacts', 'Props.GenFetcher'],
     'C14': ['Props.GenHeads', 'Props.GenJoin', 'Props.GenJoinTail', 'Props.GenCapstoneJoin'],
-    'C15': ['Props.C13Facts', 'Props.GenTraverse', 'Props.GenIterator', 'Props.GenCapstoneIter'],
+    'C15': ['Props.C13Facts', 'Props.GenTraverse', 'Props.GenIterator', 'Props.GenCapstoneIter', 'Props.GenCapstoneSystem'],
     'C16': ['Props.GenJoin', 'Props.GenJoinTail', 'Props.GenCapstoneBounded'],
     'C17': ['Props.EffectFacts', 'Props.GenFetcher'],
     'C18': ['Props.CodecFacts', 'Props.GenMisc'],
